@@ -19,22 +19,17 @@ let exec_sync (line : string) : string =
 (* the reference executor (Run/RefExecute.v): response only *)
 let exec_ref (line : string) : string =
   let (s, d, values, w, _) = parse_case line in
-  let cls = match td_build s d with
-    | Some rd when known_covariant s rd -> "covariant_field_type"
-    | Some rd when known_nested_var rd -> "nested_variable_in_scalar_literal"
-    | _ -> "-" in
-  (match ref_execute s d values w with
-   | EoResponse r -> "ok " ^ Lib_xrun.p_response r
-   | o -> Lib_xrun.p_outcome o []) ^ " cls=" ^ cls
+  match ref_execute s d values w with
+  | EoResponse r -> "ok " ^ Lib_xrun.p_response r
+  | o -> Lib_xrun.p_outcome o []
 
-(* the decidable hypotheses of C26_eq_reference_decidable on the case (Run/ExecRefDefs.v): schema well-formed, one
-   field name per response key, no fragment cycle; and the known class *)
+(* the decidable hypotheses of C26_eq_reference_decidable on the case (Run/ExecRefDefs.v): schema well-formed
+   (including sch_impl_covariant), one field name per response key, no fragment cycle *)
 let exec_hyps (line : string) : string =
   let (s, d, _, _, _) = parse_case line in
   let b x = if x then "1" else "0" in
   match td_build s d with
   | Some rd -> "wf=" ^ b (sch_exec_wf s) ^ " alias=" ^ b (rd_alias_consistent rd) ^ " acyclic=" ^ b (rd_acyclic rd)
-               ^ " covariant=" ^ b (known_covariant s rd)
   | None -> "untyped"
 
 let families = [ ("exec_sync", exec_sync); ("exec_ref", exec_ref); ("exec_hyps", exec_hyps) ]
